@@ -8,6 +8,7 @@ mod qalloc;
 mod sched;
 mod scenarios;
 mod seq;
+mod stress;
 mod types;
 
 #[global_allocator]
@@ -53,11 +54,24 @@ fn main() {
         "guards" => cmd_guards(),
         "bulk" => cmd_bulk(&args),
         "conc" => cmd_conc(&args),
+        "stress" => cmd_stress(&args),
         other => {
             eprintln!("unknown command {}", other);
             std::process::exit(2);
         }
     }
+}
+
+/// stress --seed S --secs N --threads T
+fn cmd_stress(args: &[String]) {
+    let seed: u64 = arg(args, "--seed").and_then(|s| s.parse().ok()).unwrap_or(1);
+    let secs: u64 = arg(args, "--secs").and_then(|s| s.parse().ok()).unwrap_or(5);
+    let threads: usize = arg(args, "--threads").and_then(|s| s.parse().ok()).unwrap_or(4 * std::thread::available_parallelism().map(|n| n.get()).unwrap_or(4));
+    let r = stress::run(seed, secs, threads);
+    println!(
+        "{{\"rounds\":{},\"ops\":{},\"threads\":{},\"max_table\":{},\"rounds_with_resize\":{},\"rounds_with_tree\":{},\"failures\":{}}}",
+        r.rounds, r.ops, threads, r.max_table, r.rounds_with_resize, r.rounds_with_tree, json_list(&r.failures)
+    );
 }
 
 /// seq --seed S --cases N --max-ops M --ops FILE --impl FILE --report FILE
